@@ -93,6 +93,11 @@ func (p *Parser) ParsePackages(ctx context.Context, packageNames []string) ([]*c
 				ifaceLog := fileLog.With().Str("interface", declaredInterface).Logger()
 
 				obj := scope.Lookup(declaredInterface)
+				if obj == nil {
+					// e.g. `type _ interface{ ... }`: the blank identifier declares nothing
+					ifaceLog.Debug().Msg("type declaration is not in the package scope, skipping")
+					continue
+				}
 
 				typ, ok := obj.Type().(*types.Named)
 				if !ok {
